@@ -245,6 +245,8 @@ func main() {
 		cmdCliCheck(os.Args[2:])
 	case "allot-scale":
 		cmdAllotScale(os.Args[2:])
+	case "soups":
+		cmdSoups(os.Args[2:])
 	case "conc":
 		cmdConc(os.Args[2:])
 	case "store-replay":
